@@ -98,6 +98,7 @@ type clockState struct {
 	lastS    Term
 	lastN    Term
 	have     bool
+	yields   bool
 }
 
 const unixToInternal = (1969*365 + 1969/4 - 1969/100 + 1969/400) * 86400
@@ -118,8 +119,15 @@ func init() {
 		c.sec, c.ns, c.step = int64(a[0].(Term).Int()), int64(a[1].(Term).Int()), int64(a[2].(Term).Int())
 		return nil
 	}
+	rtIntrinsics["ClockYields"] = func(e *Engine, fr *frame, a []Value) Value {
+		e.clock().yields = a[0].(Term).True()
+		return nil
+	}
 	intrinsics["time.Now"] = func(e *Engine, fr *frame, a []Value) Value {
 		c := e.clock()
+		if c.yields {
+			defer e.yield("clock")
+		}
 		var sec, ns Term
 		if c.concrete {
 			sec, ns = BV(64, c.sec), BV(64, c.ns)
